@@ -136,10 +136,11 @@ func isRelativeAdd(ins x86asm.Inst) bool {
 	return isAdd
 }
 
-// isRaceInstrumentation 判断 CALL 的目标是否为 -race 编译时插入的 runtime.race* 函数
-func isRaceInstrumentation(target uintptr) bool {
+// isRuntimeHelper 判断 CALL 的目标是否为 wrapper 里在调用被包装函数之前插入的 runtime 辅助函数:
+// -race 编译时的 runtime.race*, 以及拷贝较大的值类型 receiver/参数时的 runtime.duffcopy / duffzero / memmove 等
+func isRuntimeHelper(target uintptr) bool {
 	f := runtime.FuncForPC(target)
-	return f != nil && strings.HasPrefix(f.Name(), "runtime.race")
+	return f != nil && strings.HasPrefix(f.Name(), "runtime.")
 }
 
 // GetInnerFunc Get the first real func location from wrapper
@@ -172,8 +173,8 @@ func GetInnerFunc(mode int, start uintptr) (uintptr, error) {
 			} else if curLen+int(relativeAddr) < 0 {
 				target = start + uintptr(curLen) - uintptr(-relativeAddr) + uintptr(inst.Len)
 			}
-			// -race 编译时 wrapper 的第一个 CALL 是 runtime.racefuncenter 等插桩函数, 不是被包装的函数
-			if target != 0 && !isRaceInstrumentation(target) {
+			// wrapper 的第一个 CALL 可能是 runtime.racefuncenter(-race) 或 runtime.duffcopy(拷贝较大的值类型 receiver) 等辅助函数, 不是被包装的函数
+			if target != 0 && !isRuntimeHelper(target) {
 				return target, nil
 			}
 		}
